@@ -91,7 +91,7 @@ CLAIMED = {
              "the variable must have changed by exactly the sum of all amounts. All statement shapes: 4 memory "
              "kinds (array map, per-CPU map, local, raw memory through the map base) x formats i I q Q x x "
              "+= / -= x constant (small, negative, 2^31-1, 2^40+7) / register / expression amounts x initial "
-             "values incl. wrap-around. Exhaustive over schedules for each case. Also members of a looked-up Dict value (shared through the hash map). Also raw memory reached through a register of the program's own choice (r2, r4, r6, r8, r9).",
+             "values incl. wrap-around. Exhaustive over schedules for each case. Also members of a looked-up Dict value (shared through the hash map). Also raw memory reached through a register of the program's own choice (r2, r4, r6, r8, r9). Also fixed-point amounts (variable, x register) added to integer variables.",
         note="Ebpf.tla is a model of the ISA: cross-checked against the kernel on 1 800 runs of 600 random "
              "verifier-accepted programs plus targeted packet / hash-helper / tail-call cases, 0 mismatches "
              "(harness/fidelity.py). An atomic add is one machine step, as on hardware. Per-CPU maps are "
@@ -266,7 +266,7 @@ CLAIMED = {
              "12 condition shapes x 5 block shapes from fixed seeds; TLC executes the emitted bytecode on the "
              "eBPF machine from input vectors drawn around each program's constants (incl. equal operands and "
              "positive-versus-minus-one), and the markers found set must equal Exec. 58% of judged programs "
-             "were observed on two or more different paths in the quick tier. Later widened: hash-map variable operands, programs inside a temporary's block, and conditions over fixed-point and mixed operands (C02's comparison statements, judged by Fixed.tla). Also expressions over narrow unsigned operands whose exact value may be negative (`H - H`, `I - 1`, `b * B`) on either side against signed and 8-byte operands.",
+             "were observed on two or more different paths in the quick tier. Later widened: hash-map variable operands, programs inside a temporary's block, and conditions over fixed-point and mixed operands (C02's comparison statements, judged by Fixed.tla). Also expressions over narrow unsigned operands whose exact value may be negative (`H - H`, `I - 1`, `b * B`) on either side against signed and 8-byte operands. Also statements that leave the program (`exit` inside bodies and Else blocks; Dsl.tla: nothing runs after it).",
         note="Bounded depth and sampled inputs. A condition outside the precondition on the executed path makes the "
              "case skipped. One recorded known finding (the sw register view compared without sign extension "
              "against a 64-bit operand) is matched by a predicate the spec evaluates; a program that has it AND "
